@@ -80,6 +80,26 @@ theorem changed_register_is_not_restored :
     ∃ m', restoreContext (ctxOf {}) { cs := [Frame.mk FK.function { co := 9 }], r := { co := 3 } } = .ok m' ∧ m'.r.co = 9 :=
   ⟨_, rfl, rfl⟩
 
+def errChain : Res → Option Nat
+  | .err m => some m.ctxs.length
+  | _ => none
+
+/-- the control stack is full (2 of 2 frames) and one error context exists -/
+def fullStack : M :=
+  { maxDepth := 2, cs := [Frame.mk FK.function {}, Frame.mk FK.function {}], ctxs := [Ctx.mk 0 0 0 0 0] }
+
+/-- a catch placed exactly where save_context refuses: the error "*Can't catch too deep recursion" leaves with the
+    chain of one context it found — nothing was linked (a seeded change that linked before the test left 2 / a
+    dangling head) -/
+theorem catch_at_limit_keeps_chain :
+    errChain (execCore (.catch_ (.cons (.say "x") .nil)) fullStack) = some 1 := by
+  simp [errChain, fullStack]; evalm
+
+/-- a safe apply placed there completes without applying anything: stacks and chain as before -/
+theorem safe_apply_at_limit_keeps_chain :
+    okDepth (execCore (.safeApply 1 1 (.cons (.say "x") .nil)) fullStack) = some (0, 2, 1) := by
+  simp [okDepth, fullStack]; evalm
+
 def errLoadDepth : Res → Option Int
   | .err m => some m.loadDepth
   | _ => none
